@@ -33,6 +33,8 @@ import (
 	"github.com/h2non/gock"
 	"github.com/sirupsen/logrus"
 
+	"github.com/free5gc/chf/cdr/asn"
+	"github.com/free5gc/chf/cdr/cdrType"
 	chf_context "github.com/free5gc/chf/internal/context"
 	"github.com/free5gc/chf/internal/logger"
 	"github.com/free5gc/chf/internal/sbi"
@@ -361,6 +363,7 @@ type UESnap struct {
 	Sessions   []string         `json:"sessions"`
 	Records    int              `json:"records"`
 	NotifyUri  string           `json:"notifyUri"`
+	RecHash    []uint64         `json:"recHash"` // hash of the BER encoding of every record, in ue.Records order
 }
 
 type Snap struct {
@@ -412,6 +415,10 @@ func (w *World) Snapshot(withGor bool) Snap {
 		for k := range ue.Cdr {
 			u.Sessions = append(u.Sessions, k)
 		}
+		for _, r := range ue.Records {
+			b, _ := safeMarshalRecord(r)
+			u.RecHash = append(u.RecHash, fnv(b))
+		}
 		sort.Strings(u.Sessions)
 		s.UEs[k.(string)] = u
 		return true
@@ -429,6 +436,15 @@ func (w *World) Snapshot(withGor bool) Snap {
 	notesMu.Unlock()
 	s.DBGets, s.DBPuts = mongoapi.Gets, mongoapi.Puts
 	return s
+}
+
+func safeMarshalRecord(r *cdrType.CHFRecord) (b []byte, err error) {
+	defer func() {
+		if p := recover(); p != nil {
+			err = fmt.Errorf("%v", p)
+		}
+	}()
+	return asn.BerMarshalWithParams(&r, "explicit,choice")
 }
 
 func notesSince(n int) []Note {
